@@ -143,7 +143,10 @@ void h_run(Case &c) {
     } else if (op == 7) { const char *nm = o.pick(names); unsigned nrin = o.range(0, (int)model.size() + 1), nr = nrin; struct hwloc_distances_s *dd[80]; memset(dd, 0x5a, sizeof dd); int r = hwloc_distances_get_by_name(t, nm, &nr, dd, 0); checkget(c, t, r, nrin, nr, dd, nm, -1, 0, "get_by_name"); if (adds && events) gets_after++; c.descf("\n | get_by_name(%s)", nm);
     } else if (op == 8) { int depth = o.range(-8, hwloc_topology_get_depth(t)); unsigned nrin = o.range(0, (int)model.size() + 1), nr = nrin; struct hwloc_distances_s *dd[80]; memset(dd, 0x5a, sizeof dd); int ty = (int)hwloc_get_depth_type(t, depth); errno = 0; int r = hwloc_distances_get_by_depth(t, depth, &nr, dd, 0, 0);
       if (ty == -1) CHECK(c, r == -1 && errno == EINVAL, "get_invalid", "get_by_depth(%d) on a non-existing depth: ret %d errno %d", depth, r, errno); else { checkget(c, t, r, nrin, nr, dd, NULL, ty, 0, "get_by_depth"); if (adds && events) gets_after++; } c.descf("\n | get_by_depth(%d)", depth);
-    } else if (op == 9) { int w = o.range(0, 5);
+    } else if (op == 9) { int w = o.range(0, 6);
+      if (w == 6) { int ty = o.pick(types); int td = hwloc_get_type_depth(t, (hwloc_obj_type_t)ty); int r = hwloc_distances_remove_by_type(t, (hwloc_obj_type_t)ty); CHECK(c, r == 0, "remove", "remove_by_type(%s) failed", hwloc_obj_type_string((hwloc_obj_type_t)ty));
+        if (td != HWLOC_TYPE_DEPTH_UNKNOWN && td != HWLOC_TYPE_DEPTH_MULTIPLE) { std::vector<Ent> nm; for (auto &e : model) if (e.utype != ty) nm.push_back(e); if (nm.size() != model.size()) events++; model = nm; }
+        c.descf("\n | remove_by_type(%s)", hwloc_obj_type_string((hwloc_obj_type_t)ty)); fullcheck(c, t, "remove_by_type", false); } else
       if (w == 0) { CHECK(c, hwloc_distances_remove(t) == 0, "remove", "remove failed"); model.clear(); events++; c.desc("\n | remove()"); fullcheck(c, t, "remove", false); }
       else if (w <= 2) { int depth = o.range(-8, hwloc_topology_get_depth(t)); int ty = (int)hwloc_get_depth_type(t, depth); int r = hwloc_distances_remove_by_depth(t, depth);
         if (ty == -1) CHECK(c, r == -1, "remove_invalid", "remove_by_depth(%d) on a non-existing depth accepted", depth); else { CHECK(c, r == 0, "remove", "remove_by_depth failed"); std::vector<Ent> nm; for (auto &e : model) if (e.utype != ty) nm.push_back(e); if (nm.size() != model.size()) events++; model = nm; }
